@@ -62,6 +62,7 @@ type Enc struct {
 	heapSort map[string]string // heap key -> sort of the array
 	notes   []string
 	assumptionsUsed map[string]bool
+	sentinels map[string]int
 }
 
 func NewEnc(p *Program, cs *Contracts) *Enc {
@@ -143,6 +144,19 @@ func (e *Enc) strID(s string) string {
 	id := len(e.strIDs)
 	e.strIDs[s] = id
 	return fmt.Sprint(id)
+}
+
+// sentinelID gives package-level error values distinct negative payloads.
+func (e *Enc) sentinelID(name string) int {
+	if e.sentinels == nil {
+		e.sentinels = map[string]int{}
+	}
+	if id, ok := e.sentinels[name]; ok {
+		return id
+	}
+	id := -(len(e.sentinels) + 1)
+	e.sentinels[name] = id
+	return id
 }
 
 func (e *Enc) strLits() map[int]string {
@@ -557,10 +571,13 @@ type deferred struct {
 type State struct {
 	H      map[string]string // heap key / ghost key -> current term
 	Defers []deferred
+	Epoch  int // bumped by havoc-everything: untouched keys resolve to a fresh initial version
 }
 
+var epochCounter int
+
 func (s *State) clone() *State {
-	n := &State{H: make(map[string]string, len(s.H))}
+	n := &State{H: make(map[string]string, len(s.H)), Epoch: s.Epoch}
 	for k, v := range s.H {
 		n.H[k] = v
 	}
@@ -576,8 +593,9 @@ func (e *Enc) heapGet(st *State, key string) string {
 	if !ok {
 		panic("unknown heap key " + key)
 	}
-	// initial version: shared across the whole function (entry value)
-	n := sanitize(key) + "!0"
+	// initial version: shared across the whole function (entry value), or
+	// across everything after the same havoc-everything point
+	n := fmt.Sprintf("%s!e%d", sanitize(key), st.Epoch)
 	e.decl(fmt.Sprintf("(declare-const %s %s)", n, srt))
 	return n
 }
@@ -599,7 +617,16 @@ func (e *Enc) mergeStates(ins []*State, conds []string) *State {
 	if len(ins) == 1 {
 		return ins[0].clone()
 	}
-	out := &State{H: map[string]string{}}
+	out := &State{H: map[string]string{}, Epoch: ins[0].Epoch}
+	for _, s := range ins {
+		if s.Epoch != out.Epoch {
+			// paths disagree about a havoc-everything point: every key not
+			// explicitly tracked is treated as havoced again
+			epochCounter++
+			out.Epoch = epochCounter
+			break
+		}
+	}
 	keys := map[string]bool{}
 	for _, s := range ins {
 		for k := range s.H {
